@@ -3,6 +3,7 @@
 Every callable the harness hands to tinyflux comes from here, by index; the model is run
 under the environment twinE/twinC whose functions are the Gallina twins.  check_twins()
 cross-checks the two tables on a value universe through coqc on every run."""
+import operator as _operator
 import re
 from datetime import timedelta, timezone
 
@@ -76,6 +77,8 @@ TESTS = [
     (lambda x: True, ()),
     (_Range(0, 1).contains, ()),
     (_Range(5, 9).contains, ()),
+    (_operator.ge, (2,)),          # a comparison FUNCTION of the operator module handed to test(): value >= 2, raising for what has no order with 2
+    (_operator.ne, (1,)),          # value != 1: total
 ]
 
 
